@@ -314,17 +314,19 @@ def main(argv=None):
     ev = dict(property_id=pid, tier=args.tier, seed=seed, level=level, coverage=cov, assumptions=list(getattr(mod, "ASSUMPTIONS", [])), wall_s=round(wall, 2), violations=len(new_viols), known_findings_hit=[k for k in known_hits])
     evdir = os.environ.get("VERIF_EVIDENCE_DIR") or os.path.join(ROOT, "evidence")  # (override used only by tools/try_mut.sh so that runs on a deliberately broken tree never touch the committed evidence)
     os.makedirs(evdir, exist_ok=True)
-    if not errors:
-        with open(os.path.join(evdir, f"{pid}.json"), "w") as f:
-            json.dump(ev, f, indent=1, default=str)
+    if errors:
+        ev["harness_errors"] = [e[:400] for e in errors[:3]]
+        ev["coverage"]["exhaustive"] = False
+    with open(os.path.join(evdir, f"{pid}.json"), "w") as f:
+        json.dump(ev, f, indent=1, default=str)
 
     print(f"[{pid}] tier={args.tier} seed={seed} cases={tot['evaluations']}/{ncases} states={tot['states']} transitions={tot['transitions']} traces={tot['traces']} nontrivial={len(digests)} outcomes={len(outcomes)} violations={tot['n_viol']} wall={wall:.1f}s" + (" CAPPED" if capped else ""))
     if counters:
         print(f"[{pid}] counters: " + json.dumps(counters, sort_keys=True))
-    if errors:
-        for e in errors[:3]:
-            print("HARNESS-ERROR:", e, file=sys.stderr)
-        return 2
+    for e in errors[:3]:
+        print("HARNESS-ERROR:", e, file=sys.stderr)
+    if errors and not new_viols:
+        return 2  # nothing reproducible to report: not a verdict about atomica
     for key, (k, n) in known_hits.items():
         print(f"KNOWN-FINDING: property={pid} {k['what']} [{n} case(s), key={key}]")
     if new_viols:
